@@ -462,4 +462,25 @@ def toksRun (q : List QTok) : Nat → Nat → List Bool → Option (List (Option
       | some t, some rest => some ((some t, b - 1 - a) :: rest)
       | _, _ => none
 
+/-! #### `find_tagged` / `find_first_tagged` -/
+
+/-- `flatten()` walked from the front: the start indices of all pairs of the window, in stream order. -/
+def flatAll (q : List QTok) : Nat → Flat → Option (List Nat)
+  | 0, _ => some []
+  | fuel + 1, v =>
+    match v.next q with
+    | some (some i, v') => (flatAll q fuel v').map (i :: ·)
+    | some (none, _) => some []
+    | none => none
+
+/-- `Pairs::find_tagged(tag)`: `self.flatten().filter(|p| p.as_node_tag() == Some(tag))`. -/
+def Pairs.findTagged (q : List QTok) (v : Pairs) (tag : Str) : Option (List Nat) := do
+  let all ← flatAll q (v.stop - v.start + 1) ⟨v.start, v.stop⟩
+  let tags ← all.mapM fun i => (pairTag q i).map fun t => (i, t)
+  pure ((tags.filter fun p => p.2 = some tag).map (·.1))
+
+/-- `Pairs::find_first_tagged(tag)`: `self.clone().find_tagged(tag).next()`. -/
+def Pairs.findFirstTagged (q : List QTok) (v : Pairs) (tag : Str) : Option (Option Nat) :=
+  (v.findTagged q tag).map (·.head?)
+
 end PestModel.Views
